@@ -495,6 +495,36 @@ def optimizer_keeps_transfers(facts, rep):
         rep.ob("C02.O", "constants|annotated-not-folded", bool(tests) and not folds,
                "with non-empty annotations no folding call (Evaluator::evaluate_node) is reachable in optimize_graph_constants "
                "(%d annotation test(s); reachable folds at bb%s)" % (len(tests), folds), co.loc())
+    # the meta-operation pass never looks through a transfer: under Operation::NOP no proxy object is recorded, so the
+    # re-created NOP (with its Send annotation) is what getters and consumers of the sent value are mapped to
+    mo = facts.body("optimizer::meta_operation_optimizer::optimize_graph_meta_operations")
+    ap = facts.body("optimizer::meta_operation_optimizer::maybe_apply_meta_op")
+    if rep.anchor("C02.O", "optimize_graph_meta_operations", mo):
+        vidx = {n: i for i, n in V.variants(facts)}
+
+        def apply_model(interp, body, bb, t, args):
+            return interp.run_callee(ap, [V.TOP, V.SUBJ, V.TOP]) if ap is not None else V.TOP
+        models = {"optimizer::meta_operation_optimizer::maybe_apply_meta_op": apply_model}
+
+        flm = Flow(facts, mo)
+        # the question is about NOPs that carry annotations: `node.get_annotations()?.is_empty()` is taken to be false
+        sv = {(mo.id, bb): ("b", False) for bb, t in mo.calls() if (callee_name(t) or "").endswith("::is_empty") and
+              any(o[0] == "call" and o[2] == "graphs::Node::get_annotations" for o in flm.origins(t["args"][0], (bb, None)))}
+
+        def proxy_inserts(variant):
+            res = V.Interp(facts, vidx[variant], call_models=models, site_values=sv).run(mo)
+            return [bb for bb, c in res.reachable_calls() if c and c.startswith("std::collections::HashMap") and c.endswith("::insert")
+                    and "ProxyObjectWithNode" in str(mo.term(bb)["f"].get("ga", "")) + "".join(mo.local_ty(a[1][0]) for a in mo.term(bb)["args"] if a[0] != "k")
+                    and "String" not in mo.local_ty(mo.term(bb)["args"][1][1][0])]
+        if rep.anchor("C02.O", "Operation::NOP / CreateTuple variants", "NOP" in vidx and "CreateTuple" in vidx):
+            ins = proxy_inserts("NOP")
+            rep.ob("C02.O", "meta|nop-not-transparent", not ins,
+                   "under Operation::NOP the meta pass records no proxy object: getters applied to a sent value keep reading the "
+                   "received NOP node" if not ins else
+                   "the meta pass records a proxy object for a NOP node: tuple_get / vector_get of a sent composite value is "
+                   "redirected to the element from BEFORE the Send, so the receiver reads its own junk copy", mo.loc(ins[0]) if ins else mo.loc())
+            rep.ob("C02.O", "meta|positive:CreateTuple", bool(proxy_inserts("CreateTuple")),
+                   "positive control: under Operation::CreateTuple a proxy object is recorded (rule can fire)", mo.loc())
 
 
 # ----------------------------------------------------------------------------- C02.P
